@@ -527,7 +527,9 @@ impl DecodeBeatmap for Beatmap {
             .zip(split.next())
             .ok_or(ParseBeatmapError::InvalidTimingPointLine)?;
 
-        let time = time.parse_num::<f64>()?;
+        // Adding zero turns `-0.0` into `0.0`. Control points are ordered
+        // through `f64::total_cmp` for which these would be different times.
+        let time = time.parse_num::<f64>()? + 0.0;
 
         // Manual `str::parse_num::<f64>` so that NaN does not cause an error
         let beat_len = beat_len
